@@ -420,3 +420,13 @@ def pat_binds(p, path=()):
         for i, q in enumerate(p.get("prefix", [])):
             out += pat_binds(q, path + ("[%d]" % i,))
     return out
+
+
+def find_matches_node(node, scrut_ty_suffix):
+    """Match nodes under an arbitrary node whose scrutinee type ends with suffix."""
+    res = []
+    for m in exprs(node, "Match"):
+        st = m["scrut"].get("ty", "").replace("&", "").replace("mut ", "").strip()
+        if st == scrut_ty_suffix or st.endswith("::" + scrut_ty_suffix):
+            res.append(m)
+    return res
